@@ -57,12 +57,14 @@ def configs(tier):
     for kind, a in ([("positive", (2, 1)), ("complex", (1, 1)), ("mixed", (1, 1, 1))] if q else
                     [("positive", (2, 2)), ("positive", (3, 2)), ("complex", (1, 1)), ("complex", (2, 1)), ("mixed", (1, 1, 1)), ("mixed", (2, 1, 1))]):
         out.append({"part": "end-to-end", "kind": kind, "arch": list(a)})
+    out.append({"generic": "every shape"})
     return out
 
 
 def canaries(tier):
     return [({"part": "energy-grad", "rbm": "binary", "arch": [2, 1]}, "spec-layout-biases-swapped"),
-            ({"part": "rotated", "kind": "complex", "arch": [1, 1], "basis": "Y"}, "spec-phase-gradient-sign")]
+            ({"part": "rotated", "kind": "complex", "arch": [1, 1], "basis": "Y"}, "spec-phase-gradient-sign"),
+            ({"generic": "every shape"}, "generic-wrong-contract")]
 
 
 def layout(module):
@@ -81,6 +83,9 @@ def _d(expr, a):
 
 
 def run_config(ctx, cfg):
+    if cfg.get("generic"):
+        from contracts import gsets
+        return gsets.run(ctx, "C03")
     return {"energy-grad": _energy_grad, "gamma-pi-grad": _gamma_pi, "rotated": _rotated, "grouping": _grouping,
             "positive-api": _positive_api, "end-to-end": _e2e}[cfg["part"]](ctx, cfg)
 
@@ -484,5 +489,8 @@ def _e2e(ctx, cfg):
 
 
 def replay(o):
+    if o["cfg"].get("generic"):
+        from contracts import gsets
+        return gsets.replay("C03", o)
     from drivers import C03 as D
     return D.replay(o["cfg"], (o.get("witness") or {}).get("env") or {}, o.get("short") or "")
